@@ -532,6 +532,9 @@ def Store.token (s : Store) (secret : Bytes) : Option Token := s.tokens.find? fu
 def Store.putDoc (s : Store) (d : Doc) : Store := { s with docs := d :: s.docs.filter fun x => x.id ≠ d.id }
 def Store.delDoc (s : Store) (id : Bytes) : Store := { s with docs := s.docs.filter fun x => x.id ≠ id }
 def Store.putRole (s : Store) (r : Role) : Store := { s with roles := r :: s.roles.filter fun x => x.id ≠ r.id }
+def Store.delRole (s : Store) (id : Bytes) : Store := { s with roles := s.roles.filter fun x => x.id ≠ id }
+def Store.delToken (s : Store) (secret : Bytes) : Store :=
+  { s with tokens := s.tokens.filter fun x => x.secret ≠ secret }
 def Store.putToken (s : Store) (t : Token) : Store :=
   { s with tokens := t :: s.tokens.filter fun x => x.secret ≠ t.secret }
 
@@ -583,16 +586,19 @@ def nodeDoc (n : NodeId) : Doc := ⟨1 :: n.name, 0, 0, [n.dc], nodeTemplate n.n
 def filterByScope (dc : Bytes) (ds : List Doc) : List Doc :=
   ds.flatMap fun d => if d.dcs.isEmpty then [d] else (d.dcs.filter (· = dc)).map fun _ => d
 
-/-- `resolvePoliciesForIdentity` -/
-def policiesFor (s : Store) (dc : Bytes) (t : Token) : List Doc :=
+/-- `resolvePoliciesForIdentity`, given how a role id and a policy id resolve -/
+def policiesForV (role : Bytes → Option Role) (doc : Bytes → Option Doc) (dc : Bytes) (t : Token) : List Doc :=
   if t.policies.isEmpty && t.svcs.isEmpty && t.roles.isEmpty && t.nodes.isEmpty then []
   else
-    let roles := t.roles.filterMap s.role
+    let roles := t.roles.filterMap role
     let pids := dedupeSorted (t.policies ++ roles.flatMap (·.policies))
     let svcs := dedupSvcs (t.svcs ++ roles.flatMap (·.svcs))
     let nodes := dedupNodes (t.nodes ++ roles.flatMap (·.nodes))
     let synth := svcs.map svcDoc ++ nodes.map nodeDoc
-    filterByScope dc (pids.filterMap s.doc ++ synth)
+    filterByScope dc (pids.filterMap doc ++ synth)
+
+/-- `resolvePoliciesForIdentity` in server mode: roles and policies come from the local state store -/
+def policiesFor (s : Store) (dc : Bytes) (t : Token) : List Doc := policiesForV s.role s.doc dc t
 
 inductive ResolveErr | root | notFound | compile
 deriving DecidableEq, Repr
